@@ -303,8 +303,8 @@ func checkC03(x *Exec, c *Case) ([]Violation, bool) {
 func init() {
 	register(&Prop{
 		ID: "C03", Level: "exploration", QuickS: 25, ThoroughS: 420,
-		Rule: "seeded client byte streams (valid sessions of every phase incl. SSLRequest->N, COPY, oversized messages; messages carrying grammar-external surplus bytes: Parse with parameter OIDs, Execute/Sync/Flush/Query/Describe/Close/Bind with trailing junk; a truncated or mis-sized final message) each run under its generated segmentation and then under: all at once, one byte per read, cuts inside every 5-byte header ({2,3},{4,1},{5},{6,1,1}), a cut at every message boundary and 3 seeded cut lists; canonical transcript, output length and callback trace must be identical across all of them, and equal to the run with the surplus bytes removed; accessor clause: buffer.Reader driven directly over the segmenting reader with a generated message body followed by a canary message, a random sequence of GetString/GetBytes(n>=0)/GetUint16/GetUint32/GetPrepareType compared call by call with an independent cursor (no panic, errors exactly on short/unterminated data, canary message intact afterwards); every case counts as non-trivial (each is a differential over >= 9 segmentations); distinct = distinct case content hashes",
-		Components: append(append([]string{}, e1Components...), "accessor clause: real pkg/buffer.Reader over a stub segmenting io.Reader (input generation riding on the simulated transport)"),
+		Rule:        "seeded client byte streams (valid sessions of every phase incl. SSLRequest->N, COPY, oversized messages; messages carrying grammar-external surplus bytes: Parse with parameter OIDs, Execute/Sync/Flush/Query/Describe/Close/Bind with trailing junk; a truncated or mis-sized final message) each run under its generated segmentation and then under: all at once, one byte per read, cuts inside every 5-byte header ({2,3},{4,1},{5},{6,1,1}), a cut at every message boundary and 3 seeded cut lists; canonical transcript, output length and callback trace must be identical across all of them, and equal to the run with the surplus bytes removed; accessor clause: buffer.Reader driven directly over the segmenting reader with a generated message body followed by a canary message, a random sequence of GetString/GetBytes(n>=0)/GetUint16/GetUint32/GetPrepareType compared call by call with an independent cursor (no panic, errors exactly on short/unterminated data, canary message intact afterwards); every case counts as non-trivial (each is a differential over >= 9 segmentations); distinct = distinct case content hashes",
+		Components:  append(append([]string{}, e1Components...), "accessor clause: real pkg/buffer.Reader over a stub segmenting io.Reader (input generation riding on the simulated transport)"),
 		Assumptions: commonAssumptions,
 		Gen: func(r *Rand, tier string) *Case {
 			if r.Chance(1, 5) {
